@@ -79,6 +79,9 @@ def gen_mixfit(g, kind=None, thorough=False):
     K = int(g.choice([2, 2, 3]))
     D = int(g.choice([2, 3, 4, 5]))
     E = int(g.choice([2, 3, 4]))
+    if thorough and g.coin(0.3):
+        K = int(g.choice([2, 3, 4]))
+        D = int(g.choice([2, 3, 4, 5, 6, 7, 8]))
     integration = kind in models.INTEGRATION
     opts = {}
     aligner = None
